@@ -32,3 +32,6 @@ func VerifC13_GetPutRace() {
 	verifAssert(err == nil && cur == b, "C13 expiry race: an accepted put is what a later get returns (the expiry of the old item does not remove the fresh one)")
 	verifReach("end")
 }
+
+// The same under three preemptions (thorough tier).
+func VerifC13_GetPutRace3() { VerifC13_GetPutRace() }
